@@ -214,6 +214,20 @@ class Discharger:
             gs = strip_epoch(g)
             if gs[0] == "call" and gs[1] == ".isascii" and pol and (gs[2][0] == recv or _derived_from(recv, gs[2][0])):
                 return "dominating isascii() test on the decoded bytes"
+            # a successful match of a bytes pattern whose atoms are all ASCII, applied to the very bytes that are decoded
+            if gs[0] == "call" and gs[1] in (".match", ".fullmatch") and pol and len(gs[2]) >= 2 and gs[2][0][0] == "g" and (gs[2][1] == recv or _derived_from(recv, gs[2][1])):
+                try:
+                    from sa.abseval import AbsEval
+                    from sa.p1model import _ascii_only
+                    import re._parser as _rp
+                    A = self.__dict__.setdefault("_AE", AbsEval(self.M))
+                    for mod in self.M.mods:
+                        v = A.module_env(mod).get(gs[2][0][1]) if not mod.startswith("@") else None
+                        pt = A.regex_of(v, mod) if v is not None else None
+                        if isinstance(pt, bytes) and _ascii_only(_rp.parse(pt.decode("latin-1"))):
+                            return "dominating match of an all-ASCII bytes pattern on the decoded bytes"
+                except Exception:  # noqa
+                    pass
         return None
 
 
